@@ -78,6 +78,9 @@ pub enum UiOp {
 
 #[derive(Serialize, Deserialize, Clone, Debug)]
 pub struct NucleoScript {
+    /// weak-memory mode: Some(per-mille chance that a scheduling point drains one buffered store)
+    #[serde(default)]
+    pub weak: Option<u32>,
     pub pool_threads: u32,
     pub columns: u32,
     pub capacity: Option<u32>,
@@ -118,7 +121,8 @@ impl NucleoScript {
     }
     pub fn summary(&self) -> String {
         format!(
-            "pool={} cols={} cap={:?} eventloop={} ui_ops={} writers={} strategy={} p_timer={}ppm step={}ns",
+            "weak={:?} pool={} cols={} cap={:?} eventloop={} ui_ops={} writers={} strategy={} p_timer={}ppm step={}ns",
+            self.weak,
             self.pool_threads,
             self.columns,
             self.capacity,
@@ -571,6 +575,7 @@ impl<'a> Ui<'a> {
     }
 
     fn join_writers(&mut self) {
+        sim::flush_mine();
         self.open_all_gates();
         for w in self.writers.iter_mut() {
             if let Some(h) = w.take() {
@@ -768,6 +773,7 @@ impl<'a> Ui<'a> {
                     sim::set_role(Role::Writer(w as u8));
                     nucleo_verif_rt::hb::acquire_token(&tok);
                     writer_main(w, inj, s, ops, gates);
+                    sim::flush_mine();
                 });
                 if self.writers.len() <= w {
                     self.writers.resize_with(w + 1, || None);
@@ -1104,6 +1110,9 @@ impl Job for NucleoScript {
     fn capacity_knob(&self) -> Option<u32> {
         self.capacity
     }
+    fn weak_memory(&self) -> Option<u32> {
+        self.weak
+    }
     fn yield_every(&self) -> u32 {
         if self.writers.iter().flatten().any(|o| matches!(o, WOp::ExtendBig { .. })) {
             16
@@ -1126,6 +1135,8 @@ impl Job for NucleoScript {
         let event = Sh(Rc::new(Event::new()));
         let ev2 = event.clone();
         let notify: Arc<dyn Fn() + Sync + Send> = Arc::new(move || {
+            // a notification mechanism synchronises (channel send, condvar, unpark ...)
+            sim::flush_mine();
             model(|m| m.notifies += 1);
             sim::probe("notify");
             if let Role::Writer(w) = sim::my_role() {
